@@ -371,6 +371,38 @@ pub fn prop_e2e(c: &E2eCase) -> CaseResult {
                 talk(&a_plain, &ann(c.port_a, c.victim), true)?;
                 talk(&a_dual, &ann(c.port_a, c.victim), true)?;
                 out.checks += 3;
+                if matches!(c.mode, SocketMode::SplitV4AndDualStackV6) {
+                    // the same host once more, over plain IPv4 to another local address: only the
+                    // dual-stack IPv6 socket listens there, the source arrives IPv4-mapped; with
+                    // another announced port it must be a second IPv4 peer
+                    let mut a_other = UdpClient::new(t5, tr.port).map_err(|e| Violation::new("inconclusive-client", e))?;
+                    a_other.target = (std::net::Ipv4Addr::new(127, 0, 0, 2), tr.port).into();
+                    let other_port = if c.port_a == 65_535 { 1024 } else { c.port_a + 1 };
+                    talk(&a_other, &ann(other_port, c.victim), true)?;
+                    talk(&a_other, &ann(c.port_a, c.victim), true)?;
+                    match talk(&b, &ann(c.port_b, [0; 4]), true)? {
+                        URsp::Announce4 { mut peers, leechers, .. } => {
+                            peers.sort();
+                            let mut want = vec![([127, 0, 0, 5], c.port_a), ([127, 0, 0, 5], other_port)];
+                            want.sort();
+                            vensure!(
+                                peers == want && leechers == 2,
+                                "stored-address-wrong",
+                                "{} {:?}: host 127.0.0.5 announced ports {} and {} over plain IPv4, the latter through the dual-stack IPv6 socket (destination 127.0.0.2); a second IPv4 client sees peers {:?} (leechers {leechers})",
+                                c.tracker,
+                                c.mode,
+                                c.port_a,
+                                other_port,
+                                peers
+                            );
+                        }
+                        other => vfail!("wrong-family-reply", "{} {:?}: IPv4 host got {:?}", c.tracker, c.mode, other),
+                    }
+                    // put things back to one stored peer for the steps below
+                    let stop = move |cid: i64| bep15_encode_request(&UReq::Announce { cid, tid: 2, info_hash: hash, peer_id: [3; 20], downloaded: 0, left: 1, uploaded: 0, event: 3, ip: [0; 4], key: 0, numwant: 10, port: other_port });
+                    talk(&a_other, &stop, true)?;
+                    out.label("mapped-source-next-to-ipv4-socket");
+                }
                 match talk(&b, &ann(c.port_b, [0; 4]), true)? {
                     URsp::Announce4 { peers, leechers, seeders, .. } => {
                         vensure!(
@@ -431,6 +463,10 @@ pub fn prop_e2e(c: &E2eCase) -> CaseResult {
                     SocketMode::V6Only => cfg.network.use_ipv4 = false,
                     SocketMode::DualStackV6 => {
                         cfg.network.use_ipv4 = false;
+                        cfg.network.set_only_ipv6 = false;
+                        cfg.network.address_ipv6 = std::net::SocketAddrV6::new(std::net::Ipv6Addr::UNSPECIFIED, port, 0, 0);
+                    }
+                    SocketMode::SplitV4AndDualStackV6 => {
                         cfg.network.set_only_ipv6 = false;
                         cfg.network.address_ipv6 = std::net::SocketAddrV6::new(std::net::Ipv6Addr::UNSPECIFIED, port, 0, 0);
                     }
@@ -640,8 +676,8 @@ fn e2e_cases(seed: u64, tier: Tier) -> Vec<E2eCase> {
     let mut k = 0u64;
     for rep in 0..tier.pick(1u64, 4) {
         for (tracker, modes) in [
-            ("udp-mio", vec![Both, V4Only, V6Only, DualStackV6]),
-            ("udp-uring", vec![Both, V4Only, V6Only, DualStackV6]),
+            ("udp-mio", vec![Both, V4Only, V6Only, DualStackV6, SplitV4AndDualStackV6]),
+            ("udp-uring", vec![Both, V4Only, V6Only, DualStackV6, SplitV4AndDualStackV6]),
             ("http", vec![Both, V4Only, V6Only, DualStackV6]),
             ("http-proxy", vec![Both, DualStackV6]),
             ("ws", vec![V4Only, V6Only, DualStackV6]),
